@@ -17,8 +17,16 @@ package main
 //	        signed and unsigned multiply, mux, variable index, bit clear,
 //	        shifts, add, and / or / xor, constants) over several widths, both
 //	        signednesses; several sessions per program with independent tapes
-//	        so that both permute-bit values of every wire occur.  -extra long:
-//	        loops of several hundred iterations.
+//	        so that both permute-bit values of every wire occur.  The binary
+//	        operators are also generated with their operands in SHAPES
+//	        (constants narrower than / as wide as / wider than the other
+//	        operand, on either side, constant-only, one operand twice), and the
+//	        catalogue has kinds for the rest of the SSA instruction set (casts,
+//	        logical operators, slices, builtins, ...: covershapes.go); the check
+//	        obliges that every opcode Program.Stream handles occurred (opcat.go).
+//	        -extra long: loops of several hundred iterations.  -extra native:
+//	        every circuit file under $MPCLDIR/pkg called through native(...)
+//	        with run-time and constant arguments in every position.
 //	direct  circuit.NewStreaming + Streaming.Garble driven by the harness on
 //	        histories of generated instruction circuits over one global wire
 //	        space (random in / out maps, 16- and 32-bit wire ids, every gate
@@ -26,19 +34,25 @@ package main
 //	        offset and labels all come from the seed, so a case replays bit for
 //	        bit.
 //
-// Every session is judged three ways: the 16-byte window scan over every byte
+// Every session is judged four ways: the 16-byte window scan over every byte
 // offset (judge / scan), the shadow garbler's list of hash queries (no AES input
-// block may be queried by two different gates), and the observed tweak sequence
-// against the Lean accounting (op line `c04acc`).
+// block may be queried by two different gates), the observed tweak sequence
+// against the Lean accounting (op line `c04acc`), and the label-level invariant
+// on every gate input (a defined wire whose two labels differ by the offset:
+// shadow.go checkInput; verdict against the Lean model's wfFrom, op line
+// `c04def`).
 
 import (
 	"bytes"
 	"fmt"
+	"math/big"
 	"reflect"
 	"strings"
 	"time"
 
 	"github.com/markkurossi/mpc/circuit"
+	"github.com/markkurossi/mpc/compiler"
+	"github.com/markkurossi/mpc/compiler/ssa"
 	"github.com/markkurossi/mpc/env"
 	"github.com/markkurossi/mpc/ot"
 	"github.com/markkurossi/mpc/p2p"
@@ -55,6 +69,15 @@ type progKind struct {
 	stmt    func(r *hxlib.Rng, v, x, y, ty string, w int) string
 	boolean bool
 	signed  int // 0 either, 1 signed only, -1 unsigned only
+	// binop: the kind is the plain binary operator `x binop y`; its operands
+	// are then also generated in SHAPES (covershapes.go: constants narrower
+	// than / as wide as / wider than the other operand, constants on either
+	// side, constant-only operands, one operand twice)
+	binop string
+	// minW: smallest width the focus statement is meaningful for
+	minW int
+	// heavy: not used as a random side statement
+	heavy bool
 }
 
 func bin(op string) func(r *hxlib.Rng, v, x, y, ty string, w int) string {
@@ -72,21 +95,21 @@ func smallConst(r *hxlib.Rng, w int) int {
 }
 
 var progKinds = []progKind{
-	{name: "sub", stmt: bin("-")},
-	{name: "lt", stmt: bin("<"), boolean: true},
-	{name: "gt", stmt: bin(">"), boolean: true},
-	{name: "le", stmt: bin("<="), boolean: true},
-	{name: "ge", stmt: bin(">="), boolean: true},
-	{name: "eq", stmt: bin("=="), boolean: true},
-	{name: "ne", stmt: bin("!="), boolean: true},
-	{name: "div", stmt: bin("/")},
-	{name: "mod", stmt: bin("%")},
-	{name: "mul", stmt: bin("*")},
-	{name: "add", stmt: bin("+")},
-	{name: "and", stmt: bin("&")},
-	{name: "or", stmt: bin("|")},
-	{name: "xor", stmt: bin("^")},
-	{name: "bclr", stmt: bin("&^")},
+	{name: "sub", binop: "-", stmt: bin("-")},
+	{name: "lt", binop: "<", stmt: bin("<"), boolean: true},
+	{name: "gt", binop: ">", stmt: bin(">"), boolean: true},
+	{name: "le", binop: "<=", stmt: bin("<="), boolean: true},
+	{name: "ge", binop: ">=", stmt: bin(">="), boolean: true},
+	{name: "eq", binop: "==", stmt: bin("=="), boolean: true},
+	{name: "ne", binop: "!=", stmt: bin("!="), boolean: true},
+	{name: "div", binop: "/", stmt: bin("/")},
+	{name: "mod", binop: "%", stmt: bin("%")},
+	{name: "mul", binop: "*", stmt: bin("*")},
+	{name: "add", binop: "+", stmt: bin("+")},
+	{name: "and", binop: "&", stmt: bin("&")},
+	{name: "or", binop: "|", stmt: bin("|")},
+	{name: "xor", binop: "^", stmt: bin("^")},
+	{name: "bclr", binop: "&^", stmt: bin("&^")},
 	{name: "subc", stmt: func(r *hxlib.Rng, v, x, y, ty string, w int) string {
 		return fmt.Sprintf("\t%s := %s - %d\n", v, x, smallConst(r, w))
 	}},
@@ -117,8 +140,12 @@ var progKinds = []progKind{
 
 // genCoverProgram builds a program around the focus kind: 0..2 random
 // statements, the focus statement, 0..2 random statements that use its result,
-// everything returned.
-func genCoverProgram(r *hxlib.Rng, focus int, w int, signed bool) (src string, names []string) {
+// everything returned.  variant 0: the plain focus statement; variant 1: the
+// focus statement and, for a binary operator, its operand SHAPES (covershapes.go);
+// variants 2, 3: the shapes whose constant has as many significant bits as the
+// other operand has wires / is wider than it (the compiler may reject them:
+// mayReject).
+func genCoverProgram(r *hxlib.Rng, focus int, w int, signed bool, variant int) (src string, names []string, mayReject bool) {
 	ty := fmt.Sprintf("uint%d", w)
 	if signed {
 		ty = fmt.Sprintf("int%d", w)
@@ -151,7 +178,7 @@ func genCoverProgram(r *hxlib.Rng, focus int, w int, signed bool) (src string, n
 		for {
 			k := progKinds[r.Intn(len(progKinds))]
 			if (k.signed == 1 && !signed) || (k.signed == -1 && signed) || k.name == "index" || k.name == "div" ||
-				k.name == "mod" || k.name == "divc" {
+				k.name == "mod" || k.name == "divc" || k.heavy || w < k.minW {
 				continue
 			}
 			return k
@@ -160,7 +187,32 @@ func genCoverProgram(r *hxlib.Rng, focus int, w int, signed bool) (src string, n
 	for i := r.Intn(3); i > 0; i-- {
 		emit(pick())
 	}
-	emit(progKinds[focus])
+	fk := progKinds[focus]
+	emit(fk)
+	if fk.binop != "" && variant > 0 {
+		for _, sh := range operandShapes {
+			sv := sh.variant
+			if sv == 0 {
+				sv = 1
+			}
+			if sv != variant {
+				continue
+			}
+			v := fmt.Sprintf("s%d", n)
+			n++
+			x, y := sh.operands(r, w, signed, fk.binop)
+			fmt.Fprintf(&body, "\t%s := %s %s %s\n", v, x, fk.binop, y)
+			if fk.boolean {
+				bools = append(bools, v)
+			} else {
+				vals = append(vals, v)
+			}
+			names = append(names, "shape_"+sh.name)
+			if sv > 1 {
+				mayReject = true
+			}
+		}
+	}
 	for i := r.Intn(3); i > 0; i-- {
 		emit(pick())
 	}
@@ -175,7 +227,7 @@ func genCoverProgram(r *hxlib.Rng, focus int, w int, signed bool) (src string, n
 	}
 	src = fmt.Sprintf("package main\n\nfunc main(a, b %s) (%s) {\n%s\treturn %s\n}\n", ty, strings.Join(rtys, ", "),
 		body.String(), strings.Join(rets, ", "))
-	return src, names
+	return src, names, mayReject
 }
 
 var coverWidths = []int{8, 4, 16, 7, 13, 32, 5, 9, 17, 24, 3, 64}
@@ -189,6 +241,8 @@ type analysis struct {
 	unknown       int
 	gates         int
 	accOp, accRes string
+	defOp, defRes string
+	undefined     int
 	failed        bool
 	sh            *shadow
 }
@@ -207,12 +261,42 @@ func analyse(o *hxlib.Out, mode string, idx, sess int, desc string, ab []byte, p
 		an.failed = true
 		return an
 	}
+	zeroInputs := 0
 	for i, w := range inputs {
-		sh.glob[i] = w
+		sh.setInput(i, w)
+		if isZero(w.L0) || isZero(w.L1) {
+			zeroInputs++
+		}
 	}
+	if zeroInputs > 0 {
+		// an input wire is a fresh random pair (NewStreaming: makeLabels); a
+		// zero label there makes the other one the offset
+		o.Fail("c04-input-wire-with-zero-label", map[string]any{"mode": mode, "case": idx, "session": sess, "desc": desc,
+			"wires": zeroInputs})
+	}
+	sh.blocks = p.blocks
 	sh.run(ab, p.gates)
 	an.sh = sh
 	an.unrecovered, an.unknown, an.reuse = sh.unrecovered, sh.unknownInput, len(sh.reuses)
+	an.undefined = sh.nUndefined
+	o.CountN("shadow_gate_inputs_checked", 2*len(p.gates))
+	o.CountN("shadow_undefined_gate_inputs", sh.nUndefined)
+	o.CountN("shadow_gate_inputs_not_a_label_pair", sh.nBadPairs)
+	o.CountN("shadow_degenerate_rows", sh.nDegen)
+	// The label-level invariant: every wire a transmitted row depends on is a
+	// defined wire whose two labels differ by the offset.  A gate input that
+	// violates it is a failing input of the property even when no two windows
+	// of this tape differ by the offset: what the garbler transmits for such a
+	// gate is the offset or a raw label (Props/C04.lean
+	// C04_undefined_input_and_rows), depending on permute bits only.
+	if sh.nUndefined > 0 || sh.nBadPairs > 0 || sh.nDegen > 0 {
+		o.Fail("c04-gate-input-not-a-defined-label-pair", map[string]any{"mode": mode, "case": idx, "session": sess,
+			"desc": desc, "undefined_gate_inputs": sh.nUndefined, "undefined": sh.undefined,
+			"inputs_not_a_label_pair": sh.nBadPairs, "not_a_pair": sh.badPairs,
+			"degenerate_rows": sh.nDegen, "rows": sh.degenerate,
+			"rows_reproduced_with_these_table_contents": sh.unrecovered == 0})
+	}
+	an.defOp, an.defRes = defOp(p.gates, len(inputs), sh.nUndefined)
 	o.CountN("shadow_gates", len(p.gates))
 	o.CountN("shadow_unrecovered_rows", sh.unrecovered)
 	o.CountN("shadow_unknown_input", sh.unknownInput)
@@ -276,11 +360,23 @@ func analyse(o *hxlib.Out, mode string, idx, sess int, desc string, ab []byte, p
 
 type idealPair struct{ g, e *hxlib.RecOT }
 
+// coverSpec is one generated program of mode cover.
+type coverSpec struct {
+	srcName   string // source name handed to the compiler (native(...) files are looked up next to it)
+	src       string
+	names     []string // instruction kinds / operand shapes it was generated for
+	aw, bw    int      // widths of main's arguments a (garbler) and b (evaluator)
+	signed    bool
+	mayReject bool // the compiler rejecting the program is an expected outcome of its operand shape
+	sessions  int  // sessions to run (0: the mode's default)
+}
+
 func cover(args []string) int {
 	cf, o := hxlib.ParseCommon("c04", args, nil)
 	defer o.Close()
 	rng := hxlib.NewRng(cf.Seed ^ 0xc07e5)
 	long := cf.Extra == "long"
+	native := cf.Extra == "native"
 	sessions := 4
 	if cf.Tier != "quick" {
 		sessions = 6
@@ -288,58 +384,86 @@ func cover(args []string) int {
 	if long {
 		sessions = 2
 	}
+	var nat []nativeFile
+	if native {
+		rng = hxlib.NewRng(cf.Seed ^ 0x4a71fe)
+		nat = nativeCatalogue()
+		o.CountN("native_files", len(nat))
+		sessions = 2
+	}
 	for i := 0; i < cf.N; i++ {
 		r := rng.Fork()
 		if cf.Only >= 0 && i != cf.Only {
 			continue
 		}
-		var src string
-		var w int
-		var names []string
-		signed := false
-		if long {
-			src, w = genLongCoverProgram(r)
-			names = []string{"long"}
-		} else {
+		var sp *coverSpec
+		switch {
+		case long:
+			src, w := genLongCoverProgram(r)
+			sp = &coverSpec{srcName: "{data}", src: src, names: []string{"long"}, aw: w, bw: w}
+		case native:
+			if len(nat) == 0 {
+				o.Count("native_catalogue_empty")
+				continue
+			}
+			sp = genNativeProgram(r, nat[i%len(nat)], (i/len(nat))%len(nativeShapes))
+			if cf.Tier == "quick" && nat[i%len(nat)].gates > 50000 {
+				sp.sessions = 1
+			}
+		default:
 			focus := i % len(progKinds)
-			w = coverWidths[(i/len(progKinds)+i)%len(coverWidths)]
+			round := i / len(progKinds)
+			w := coverWidths[(round+i)%len(coverWidths)]
 			k := progKinds[focus]
-			signed = k.signed == 1 || (k.signed == 0 && (i/len(progKinds))%2 == 1)
+			signed := k.signed == 1 || (k.signed == 0 && round%2 == 1)
 			if (k.name == "div" || k.name == "mod" || k.name == "divc" || k.name == "mul") && w > 17 {
 				w = []int{8, 13, 16}[r.Intn(3)]
 			}
 			if k.name == "index" && w < 3 {
 				w = 4
 			}
-			src, names = genCoverProgram(r, focus, w, signed)
+			if w < k.minW {
+				w = k.minW
+			}
+			// operand shapes: every fourth round of a kind is the plain
+			// statement, the others add the shaped operands
+			variant := round % 4
+			src, names, mayReject := genCoverProgram(r, focus, w, signed, variant)
+			sp = &coverSpec{srcName: "{data}", src: src, names: names, aw: w, bw: w, signed: signed, mayReject: mayReject}
 		}
 		o.Count("programs")
-		for _, nm := range names {
+		for _, nm := range sp.names {
 			o.Count("kind_" + nm)
 		}
-		if signed {
+		if sp.signed {
 			o.Count("programs_signed")
 		}
-		o.Count(fmt.Sprintf("width_%d", w))
+		if !native {
+			o.Count(fmt.Sprintf("width_%d", sp.aw))
+		}
 		anyReuse, anyPair := false, false
 		total := sessions
+		if sp.sessions > 0 {
+			total = sp.sessions
+		}
+		base := total
 		for s := 0; s < total; s++ {
 			sr := r.Fork()
-			mask := uint64(1)<<uint(w) - 1
-			if w == 64 {
-				mask = ^uint64(0)
+			av, bv := randPattern(sr, sp.aw), randPattern(sr, sp.bw)
+			if s == 0 && bv.Sign() == 0 {
+				bv.SetInt64(1)
 			}
-			av, bv := sr.U64()&mask, sr.U64()&mask
-			if s == 0 && bv == 0 {
-				bv = 1
-			}
-			as, bs := inputString(av, w, signed), inputString(bv, w, signed)
+			as, bs := inputText(av, sp.aw, sp.signed), inputText(bv, sp.bw, sp.signed)
 			otName := []string{"co", "ideal"}[(i+s)%2]
-			desc := fmt.Sprintf("kinds=%s ot=%s a=%s b=%s src=%q", strings.Join(names, "+"), otName, as, bs, src)
-			an, status := coverSession(o, cf, i, s, src, w, av, as, bs, otName, sr, desc)
+			desc := fmt.Sprintf("kinds=%s ot=%s a=%s b=%s source=%s src=%q", strings.Join(sp.names, "+"), otName, as, bs,
+				sp.srcName, sp.src)
+			an, status := coverSession(o, cf, i, s, sp, av, as, bs, otName, sr, desc)
 			o.Count("sessions_" + status)
 			if an != nil {
 				o.Op(an.accOp, an.accRes)
+				if an.defOp != "" && (an.gates <= 20000 || s == 0) {
+					o.Op(an.defOp, an.defRes)
+				}
 				if an.reuse > 0 {
 					anyReuse = true
 				}
@@ -347,21 +471,41 @@ func cover(args []string) int {
 					anyPair = true
 				}
 			}
-			if status == "compile-error" {
+			if status == "compile-error" || status == "rejected-as-expected" {
 				break
 			}
 			// a reused hash query shows as a window pair for about half of the
 			// tapes: keep drawing tapes for this program until one shows it
-			if s == total-1 && anyReuse && !anyPair && total < sessions+12 {
+			if s == total-1 && anyReuse && !anyPair && total < base+12 {
 				total++
 				o.Count("extra_tapes_drawn_after_reuse")
 			}
 		}
 		if i < 2 {
-			o.Sample(map[string]any{"mode": "cover", "case": i, "src": src})
+			o.Sample(map[string]any{"mode": "cover", "extra": cf.Extra, "case": i, "src": sp.src})
 		}
 	}
 	return 0
+}
+
+// randPattern draws a w-bit pattern.
+func randPattern(r *hxlib.Rng, w int) *big.Int {
+	v := new(big.Int)
+	for i := 0; i < w; i += 64 {
+		v.Lsh(v, 64)
+		v.Or(v, new(big.Int).SetUint64(r.U64()))
+	}
+	return v.And(v, new(big.Int).Sub(new(big.Int).Lsh(big.NewInt(1), uint(w)), big.NewInt(1)))
+}
+
+// inputText renders the w-bit pattern v as the decimal input of a uintW /
+// intW argument (two's complement for signed types).
+func inputText(v *big.Int, w int, signed bool) string {
+	if signed && v.Bit(w-1) == 1 {
+		m := new(big.Int).Sub(new(big.Int).Lsh(big.NewInt(1), uint(w)), v)
+		return "-" + m.String()
+	}
+	return v.String()
 }
 
 func genLongCoverProgram(r *hxlib.Rng) (string, int) {
@@ -380,8 +524,22 @@ func genLongCoverProgram(r *hxlib.Rng) (string, int) {
 	return src, w
 }
 
+// compileCover compiles the program to the SSA program the streaming garbler
+// walks, exactly as Compiler.Stream does (pkg.Compile, peephole, GC).
+func compileCover(sp *coverSpec, sizes [][]int) (prog *ssa.Program, err error) {
+	defer func() {
+		if e := recover(); e != nil {
+			err = fmt.Errorf("panic: %v", e)
+		}
+	}()
+	params := hxlib.StreamParams(nil)
+	defer params.Close()
+	prog, _, err = compiler.New(params).CompileSSA(sp.srcName, strings.NewReader(sp.src), sizes)
+	return
+}
+
 // coverSession runs one real streaming session and analyses it.
-func coverSession(o *hxlib.Out, cf *hxlib.CommonFlags, idx, sess int, src string, w int, av uint64, as, bs string,
+func coverSession(o *hxlib.Out, cf *hxlib.CommonFlags, idx, sess int, sp *coverSpec, av *big.Int, as, bs string,
 	otName string, sr *hxlib.Rng, desc string) (*analysis, string) {
 
 	gin := []string{as}
@@ -396,21 +554,61 @@ func coverSession(o *hxlib.Out, cf *hxlib.CommonFlags, idx, sess int, src string
 	}
 	d := hxlib.NewDuplex(sr.Fork())
 	otf := func() (ot.OT, ot.OT) { return g, e }
-	res := hxlib.RunStreamSession(src, gin, ein, otf, gr, d, 90*time.Second)
+	sizes, err := hxlib.StreamInputSizes(gin, ein)
+	var prog *ssa.Program
+	if err == nil {
+		prog, err = compileCover(sp, sizes)
+	}
+	if err != nil {
+		d.Close()
+		// the compiler rejected the generated program before anything was sent
+		if sp.mayReject {
+			o.Count("programs_rejected_as_expected")
+			return nil, "rejected-as-expected"
+		}
+		o.Count("programs_rejected_by_compiler")
+		if sess == 0 {
+			o.Sample(map[string]any{"rejected": sp.src, "err": err.Error()})
+		}
+		return nil, "compile-error"
+	}
+	// the SSA instruction set of this session (counted when it ran to the end)
+	ops := map[string]int{}
+	for _, st := range prog.Steps {
+		ops[st.Instr.Op.String()]++
+		if st.Instr.Op == ssa.Circ && st.Instr.Circ != nil {
+			for k, in := range st.Instr.In {
+				if k >= len(st.Instr.Circ.Inputs) {
+					break
+				}
+				switch want := st.Instr.Circ.Inputs[k].Type.Bits; {
+				case in.Type.Bits < want:
+					ops["circ_arg_narrower_than_declared"]++
+				case in.Type.Bits == want:
+					ops["circ_arg_as_declared"]++
+				}
+				if in.Const {
+					ops["circ_arg_constant"]++
+				}
+			}
+		}
+		for _, in := range st.Instr.In {
+			if in.Const {
+				ops["operand_constant"]++
+				break
+			}
+		}
+	}
+	res := hxlib.RunStreamProgram(prog, gin, ein, otf, gr, d, 90*time.Second)
 	d.Close()
 	if !res.OK() {
 		msg := fmt.Sprint(res.GErr, res.EErr, res.GPanic, res.EPanic)
-		if len(d.AB.Rec) == 0 && res.GErr != nil && !res.Stalled && res.GPanic == nil {
-			// the compiler rejected the generated program before anything was sent
-			o.Count("programs_rejected_by_compiler")
-			if sess == 0 {
-				o.Sample(map[string]any{"rejected": src, "err": msg})
-			}
-			return nil, "compile-error"
-		}
 		o.Fail("c04-session-failed", map[string]any{"mode": "cover", "case": idx, "session": sess, "desc": desc, "err": msg,
 			"stalled": res.Stalled})
 		return nil, "failed"
+	}
+	for k, n := range ops {
+		o.CountN("ssa_op_"+k, n)
 	}
 	if hxlib.BigsString(res.GRes) != hxlib.BigsString(res.ERes) {
 		o.Fail("c04-stream-results-differ", map[string]any{"mode": "cover", "case": idx, "session": sess, "desc": desc})
@@ -435,7 +633,7 @@ func coverSession(o *hxlib.Out, cf *hxlib.CommonFlags, idx, sess int, src string
 	inputs := make([]ot.Wire, p.nIn1+p.nIn2)
 	for i := 0; i < p.nIn1; i++ {
 		act := lbl(ab[p.labelsOff+16*i:])
-		bit := i < 64 && av>>uint(i)&1 == 1
+		bit := av.Bit(i) == 1
 		wp := ot.Wire{L0: act, L1: act}
 		if bit {
 			wp.L0.Xor(r)
@@ -452,19 +650,6 @@ func coverSession(o *hxlib.Out, cf *hxlib.CommonFlags, idx, sess int, src string
 	an := analyse(o, "cover", idx, sess, desc, ab, p, r, inputs, verdict.pairs)
 	an.single, an.pairs = len(verdict.single), len(verdict.pairs)
 	return an, "ok"
-}
-
-// inputString renders the w-bit pattern v as the decimal input of a uintW /
-// intW argument (two's complement for signed types).
-func inputString(v uint64, w int, signed bool) string {
-	if signed && v>>uint(w-1)&1 == 1 {
-		m := ^v + 1
-		if w < 64 {
-			m &= uint64(1)<<uint(w) - 1
-		}
-		return "-" + fmt.Sprint(m)
-	}
-	return fmt.Sprint(v)
 }
 
 type quietVerdict struct {
@@ -760,6 +945,9 @@ func directCase(o *hxlib.Out, idx int, r *hxlib.Rng) {
 	p := &parsed{key: key, nIn1: nIn, blocks: blocks, gates: gates}
 	an := analyse(o, "direct", idx, 0, d, ab, p, r128, inputs, pairs)
 	o.Op(an.accOp, an.accRes)
+	if an.defOp != "" {
+		o.Op(an.defOp, an.defRes)
+	}
 	// the shadow's pairs against the garbler's own wire table
 	if an.sh != nil && an.unrecovered == 0 && an.unknown == 0 {
 		bad := 0
